@@ -13,6 +13,9 @@ Clauses
                  algorithm (delegations counted by wrapping the auxiliary instance's compute_consensus_rankings)
   C06.optflag    for EVERY algorithm configuration: necessarily_optimal => every returned ranking is a well-formed ranking
                  of the universe whose oracle score equals the oracle optimum
+  C06.scc.order  monitor of the external contract of igraph.Graph.components() on every call made while the partition is
+                 computed: a partition of the vertices into strongly connected sets, listed so that no arc goes from a
+                 later to an earlier one (igraph's method is wrapped, the repository is not patched)
   C06.crash      a ParCons configuration raised something that is not a documented refusal of its auxiliary algorithm
 Sites separate root causes by properties of the INPUT only: "sparse dataset" = some input ranking misses >= 2 elements
 of the universe (necessary for a ranking to miss a whole non-trivial component); "tiny-scaled scheme" = every penalty
@@ -50,6 +53,7 @@ HEURISTICS = ["BioConsert", "BioConsert[Copeland,KwikSort]", "BioConsert[PickAPe
               "BordaBucketId", "Copeland", "PickAPerm"]
 STANDIN_EXACT = ["Cplex(optimize=True)", "Cplex(optimize=False)", "CplexOptim1"]   # the selector is C05's subject
 TINY = 2.0 ** -10
+SCC_LOG = []         # (vertex count, arcs, components) of every igraph components() call in this worker
 
 
 # ---------------------------------------------------------------------------------------------------------------------
@@ -181,6 +185,54 @@ def gen_cases(tier, seed):
 
 
 # ---------------------------------------------------------------------------------------------------------------------
+def setup():
+    """Wrap the THIRD-PARTY igraph.Graph.components so that its answers can be checked against its documented contract."""
+    import igraph
+    if getattr(igraph.Graph.components, "_c06_monitor", False):
+        return
+    orig = igraph.Graph.components
+
+    def components(self, *a, **k):
+        res = orig(self, *a, **k)
+        try:
+            SCC_LOG.append((self.vcount(), [tuple(e) for e in self.get_edgelist()], [list(c) for c in res]))
+        except Exception:       # the monitor must never disturb the code under test
+            pass
+        return res
+    components._c06_monitor = True
+    igraph.Graph.components = components
+
+
+def _scc_defect(nv, arcs, comps):
+    idx = {}
+    for ci, c in enumerate(comps):
+        for v in c:
+            if v in idx:
+                return "vertex %d in two components" % v
+            idx[v] = ci
+    if sorted(idx) != list(range(nv)):
+        return "components %s do not cover the %d vertices" % (comps, nv)
+    succ = {v: set() for v in range(nv)}
+    for u, v in arcs:
+        if idx[u] > idx[v]:
+            return "arc %d->%d goes from component %d back to component %d" % (u, v, idx[u], idx[v])
+        if idx[u] == idx[v]:
+            succ[u].add(v)
+    for c in comps:             # strongly connected: everything reachable from c[0] and c[0] reachable from everything
+        for start, nxt in ((c[0], succ), (c[0], None)):
+            if nxt is None:
+                nxt = {v: set(u for u in c if v in succ[u]) for v in c}
+            seen, todo = {start}, [start]
+            while todo:
+                for w in nxt[todo.pop()]:
+                    if w not in seen:
+                        seen.add(w)
+                        todo.append(w)
+            if seen != set(c):
+                return "component %s is not strongly connected" % c
+    return None
+
+
 def _partition_defect(groups, universe):
     seen = set()
     for g in groups:
@@ -225,6 +277,7 @@ def check_case(case):
     from bounded import algs
     from corankco.partitioning.ordered_partition import OrderedPartition
     from corankco.consensus import ConsensusFeature
+    setup()
     rankings, scheme = case["rankings"], case["scheme"]
     exp_r, _conv = A.expected_names(rankings)
     universe = D.universe_of(exp_r)
@@ -242,6 +295,7 @@ def check_case(case):
 
     # ---- the partition -----------------------------------------------------------------------------------------------
     evals += 1
+    del SCC_LOG[:]
     try:
         pc = [[A.val(e) for e in g] for g in
               OrderedPartition.parcons_partition(A.mk_dataset(rankings), A.mk_scheme(scheme)).partition]
@@ -249,6 +303,15 @@ def check_case(case):
         fails.append({"clause": "C06.crash", "site": "OrderedPartition.parcons_partition raised",
                       "detail": {"exception": type(e).__name__, "message": str(e)[:300]}})
         return {"fails": fails, "key": key, "evals": evals, "sample": case}
+    def scc_monitor():
+        for nv, arcs, comps in SCC_LOG:
+            scc_bad = _scc_defect(nv, arcs, comps)
+            if scc_bad:
+                fails.append({"clause": "C06.scc.order", "site": "igraph.Graph.components (external contract)",
+                              "detail": {"problem": scc_bad, "arcs": arcs, "components": comps}})
+                break
+        del SCC_LOG[:]
+    scc_monitor()
     bad = _partition_defect(pc, universe)
     if bad:
         fails.append({"clause": "C06.partition", "site": "OrderedPartition.parcons_partition",
@@ -364,4 +427,5 @@ def check_case(case):
                                   "detail": {"config": name, "exception": type(e).__name__, "message": str(e)[:300]}})
                 continue        # heuristics: refusals / crashes are the subject of C03, C14; no consensus, no mark
             optflag(name, mode, cons)
+    scc_monitor()
     return {"fails": fails, "key": key, "evals": evals, "sample": case}
